@@ -80,6 +80,96 @@ pub fn run(key: &str, a: &[String]) -> String {
             let s = Since(u(&a[0]));
             format!("{} {} {}", s.is_absolute() as u8, s.is_relative() as u8, s.flags_is_valid() as u8)
         }
+        "proposal_finalize" => {
+            // n close far : a table with one distinct id per height 1..=n+2 (and a stale row at height 0 is impossible: heights start at 1),
+            // origin view = set of the ids at heights n-far-1..=n-close+1 (the previous window, wider by one on each side);
+            // prints: set_ok gap_ok removed_ok rows_ok (each 1 when finalize(n) agrees with the definition)
+            use ckb_chain_spec::consensus::ProposalWindow;
+            use ckb_proposal_table::{ProposalTable, ProposalView};
+            use ckb_types::packed::ProposalShortId;
+            use std::collections::HashSet;
+            let (n, c, f) = (u(&a[0]), u(&a[1]), u(&a[2]));
+            let id = |h: u64| ProposalShortId::new([(h & 255) as u8, (h >> 8) as u8, (h >> 16) as u8, (h >> 24) as u8, 0, 0, 0, 0, 0, 7]);
+            let top = n.saturating_add(2).min(n.saturating_add(0).max(1) + 2);
+            let lo_h = n.saturating_sub(f + 3).max(1);
+            let mut table = ProposalTable::new(ProposalWindow(c, f));
+            for h in lo_h..=top {
+                table.insert(h, [id(h)].into_iter().collect());
+            }
+            let origin_set: HashSet<ProposalShortId> = (n.saturating_sub(f + 1).max(1)..=n.saturating_sub(c).saturating_add(1).min(top)).map(id).collect();
+            let origin = ProposalView::new(HashSet::new(), origin_set.clone());
+            let (removed, view) = table.finalize(&origin, n);
+            let cand = n + 1;
+            let want_set: HashSet<ProposalShortId> = (lo_h..=top).filter(|h| *h <= n && cand - h >= c && cand - h <= f).map(id).collect();
+            let want_gap: HashSet<ProposalShortId> = (lo_h..=top).filter(|h| *h <= n && cand - h < c).map(id).collect();
+            let want_removed: HashSet<ProposalShortId> = origin_set.difference(&want_set).cloned().collect();
+            let rows_ok = table.all().keys().all(|h| *h + f >= cand || *h <= 1) && (lo_h..=top).filter(|h| *h + f >= cand).all(|h| table.all().contains_key(&h));
+            format!("{} {} {} {}", (view.set() == &want_set) as u8, (view.gap() == &want_gap) as u8, (removed == want_removed) as u8, rows_ok as u8)
+        }
+        "resolve_tx" => {
+            // i0 i1 st0 st1 seen0 seen1 header_valid : a transaction with two inputs (out points derived from the ids i0,i1; equal ids =
+            // the same out point) and one header dep; provider status per input (0 live, 1 dead, 2 unknown; equal ids share st0),
+            // `seenK` = the out point was already spent earlier in the batch. prints: is_err error_kind(0 Dead,1 Unknown,4 InvalidHeader..) added
+            use ckb_types::core::cell::{CellMetaBuilder, CellProvider, CellStatus, HeaderChecker, resolve_transaction};
+            use ckb_types::core::error::OutPointError;
+            use ckb_types::core::TransactionBuilder;
+            use ckb_types::{bytes::Bytes, packed, prelude::*};
+            use std::collections::HashSet;
+            let (i0, i1, st0, st1, s0, s1, hv) = (u(&a[0]), u(&a[1]), u(&a[2]), u(&a[3]), u(&a[4]), u(&a[5]), u(&a[6]));
+            let op = |i: u64| {
+                let mut h = [0u8; 32];
+                h[..8].copy_from_slice(&i.to_le_bytes());
+                h[31] = 1;
+                packed::OutPoint::new(packed::Byte32::from_slice(&h).unwrap(), 0)
+            };
+            struct P(Vec<(packed::OutPoint, u64)>);
+            impl CellProvider for P {
+                fn cell(&self, o: &packed::OutPoint, _e: bool) -> CellStatus {
+                    for (p, st) in &self.0 {
+                        if p == o {
+                            return match st {
+                                0 => CellStatus::live_cell(CellMetaBuilder::from_cell_output(packed::CellOutput::default(), Bytes::new()).out_point(o.clone()).build()),
+                                1 => CellStatus::Dead,
+                                _ => CellStatus::Unknown,
+                            };
+                        }
+                    }
+                    CellStatus::Unknown
+                }
+            }
+            struct H(bool);
+            impl HeaderChecker for H {
+                fn check_valid(&self, h: &packed::Byte32) -> Result<(), OutPointError> {
+                    if self.0 { Ok(()) } else { Err(OutPointError::InvalidHeader(h.clone())) }
+                }
+            }
+            let tx = TransactionBuilder::default()
+                .input(packed::CellInput::new(op(i0), 0))
+                .input(packed::CellInput::new(op(i1), 0))
+                .header_dep(packed::Byte32::default())
+                .build();
+            let mut seen: HashSet<packed::OutPoint> = HashSet::new();
+            if s0 != 0 { seen.insert(op(i0)); }
+            if s1 != 0 { seen.insert(op(i1)); }
+            let before = seen.len();
+            let prov = P(vec![(op(i0), st0), (op(i1), if i0 == i1 { st0 } else { st1 })]);
+            let r = resolve_transaction(tx, &mut seen, &prov, &H(hv != 0));
+            let added = seen.len() - before;
+            match r {
+                Ok(_) => format!("0 99 {added}"),
+                Err(e) => {
+                    let k = match e {
+                        OutPointError::Dead(_) => 0,
+                        OutPointError::Unknown(_) => 1,
+                        OutPointError::OutOfOrder(_) => 2,
+                        OutPointError::InvalidDepGroup(_) => 3,
+                        OutPointError::InvalidHeader(_) => 4,
+                        _ => 5,
+                    };
+                    format!("1 {k} {added}")
+                }
+            }
+        }
         "freezer_k1" => crate::freezer::k1(a),
         "freezer_k5" => crate::freezer::k5(a),
         "freezer_k2" => crate::freezer::k2(a),
